@@ -21,6 +21,7 @@ type binding struct {
 	loopOf   string            // loop index of `for i := k; i < len(xs); i++`: the Go name of xs
 	elem     string            // ... and the Coq name standing for xs[i]
 	elemTy   Type
+	lenOf    string // list variable: Coq name of the list parameter whose length it is statically known to have
 }
 
 type Env struct{ scopes []map[string]*binding }
@@ -167,6 +168,9 @@ func (w *World) translateFuncPass(m *Module, key string, fd *ast.FuncDecl, panic
 		cn := t.fresh(name)
 		t.params = append(t.params, fmt.Sprintf("(%s : %s)", cn, ty.coq(m)))
 		b := &binding{name: cn, ty: ty}
+		if ty.K == KList {
+			b.lenOf = cn
+		}
 		if t.explode[name] {
 			if ty.K != KStruct {
 				return t.errf(at, "unsupported field assignment to %s of type %s", name, ty)
@@ -217,7 +221,12 @@ func (w *World) translateFuncPass(m *Module, key string, fd *ast.FuncDecl, panic
 	switch {
 	case fd.Type.Results == nil || len(fd.Type.Results.List) == 0:
 		if !t.recvPtr {
-			return "", t.errf(fd, "function %s has no result and no pointer receiver (nothing to translate)", key)
+			// a result-less function that stores into one of its slice parameters returns that slice
+			_, pname, ok := inPlaceParam(fd)
+			if !ok {
+				return "", t.errf(fd, "function %s has no result and no pointer receiver (nothing to translate)", key)
+			}
+			t.recvName = pname
 		}
 		b := env.lookup(t.recvName)
 		t.result = b.ty
@@ -553,7 +562,13 @@ func (t *fnTr) stmts(list []ast.Stmt, env *Env, k cont) (string, error) {
 	case *ast.IfStmt:
 		return t.ifStmt(s, env, next)
 	case *ast.ForStmt:
-		lets, err := t.forFold(s, env)
+		var lets []string
+		var err error
+		if as, ix, ok := isIndexStoreBody(s.Body); ok {
+			lets, err = t.forMap(s, as, ix, env)
+		} else {
+			lets, err = t.forFold(s, env)
+		}
 		if err != nil {
 			return "", err
 		}
@@ -563,7 +578,13 @@ func (t *fnTr) stmts(list []ast.Stmt, env *Env, k cont) (string, error) {
 		}
 		return joinLets(lets, r), nil
 	case *ast.RangeStmt:
-		lets, err := t.rangeFold(s, env)
+		var lets []string
+		var err error
+		if as, ix, ok := isIndexStoreBody(s.Body); ok {
+			lets, err = t.rangeMap(s, as, ix, env)
+		} else {
+			lets, err = t.rangeFold(s, env)
+		}
 		if err != nil {
 			return "", err
 		}
@@ -793,6 +814,27 @@ func (t *fnTr) bind(name string, v val, env *Env, define bool, at ast.Node) ([]s
 
 func (t *fnTr) assign(s *ast.AssignStmt, env *Env) ([]string, error) {
 	var lets []string
+	if len(s.Lhs) == 1 && len(s.Rhs) == 1 && (s.Tok == token.DEFINE || s.Tok == token.ASSIGN) {
+		if mc, ok := isMakeCall(s.Rhs[0], env); ok {
+			id, ok := s.Lhs[0].(*ast.Ident)
+			if !ok || id.Name == "_" {
+				return nil, t.errf(s, "unsupported assignment target for make")
+			}
+			v, root, err := t.makeList(mc, env)
+			if err != nil {
+				return nil, err
+			}
+			if s.Tok == token.ASSIGN && env.lookup(id.Name) == nil {
+				return nil, t.errf(id, "assignment to %s which is not a local variable", id.Name)
+			}
+			ls, err := t.bind(id.Name, v, env, s.Tok == token.DEFINE && !env.inTop(id.Name), id)
+			if err != nil {
+				return nil, err
+			}
+			env.lookup(id.Name).lenOf = root
+			return ls, nil
+		}
+	}
 	if s.Tok != token.DEFINE && s.Tok != token.ASSIGN {
 		// x op= e
 		if len(s.Lhs) != 1 || len(s.Rhs) != 1 {
@@ -969,6 +1011,9 @@ func (t *fnTr) decl(s *ast.DeclStmt, env *Env) ([]string, error) {
 
 // exprStmt: only `x.M(args)` where M is a result-less pointer-receiver method (it updates x).
 func (t *fnTr) exprStmt(s *ast.ExprStmt, env *Env) ([]string, error) {
+	if lets, handled, err := t.sliceCallStmt(s, env); handled {
+		return lets, err
+	}
 	call, ok := s.X.(*ast.CallExpr)
 	if !ok {
 		return nil, t.errf(s, "unsupported expression statement")
